@@ -130,6 +130,10 @@ func ruleR015(c *Ctx) {
 		return
 	}
 	info := a.fg.TypesInfo
+	roles := c.fieldRoles(a)
+	for _, p := range roles.problems {
+		c.Undecided("funcGen#field-roles", token.NoPos, "%s", p)
+	}
 	storageGet := LookupMethod(a.fg, "stackStorage", "get")
 	storageSet := LookupMethod(a.fg, "stackStorage", "set")
 	if storageGet == nil || storageSet == nil {
@@ -164,7 +168,7 @@ func ruleR015(c *Ctx) {
 		return ""
 	}
 	offsPlus := func(rk string, more ...lin) lin {
-		l := symVar(field(rk, "offs"))
+		l := symVar(field(rk, roles.offs))
 		for _, m := range more {
 			l = l.add(m)
 		}
@@ -206,15 +210,15 @@ func ruleR015(c *Ctx) {
 		if !ok || stored == nil {
 			c.Undecided(key, fd.Pos(), "shape of Push not recognised")
 		} else {
-			sizeK := field(rk, "size")
+			sizeK := field(rk, roles.size)
 			wantSlot := offsPlus(rk, symVar(sizeK))
-			finalSize := env.eval(&ast.SelectorExpr{X: fd.Recv.List[0].Names[0], Sel: ast.NewIdent("size")})
+			finalSize := env.eval(&ast.SelectorExpr{X: fd.Recv.List[0].Names[0], Sel: ast.NewIdent(roles.size)})
 			if v, ok := env.vals[sizeK]; ok {
 				finalSize = v
 			} else {
 				finalSize = symVar(sizeK)
 			}
-			_, offsChanged := env.vals[field(rk, "offs")]
+			_, offsChanged := env.vals[field(rk, roles.offs)]
 			vk, _ := exprKey(info, storedVal)
 			var problems []string
 			if !stored.eq(wantSlot) {
@@ -248,15 +252,15 @@ func ruleR015(c *Ctx) {
 		if !ok || ret == nil {
 			c.Undecided(key, fd.Pos(), "shape of CreateFrame not recognised")
 		} else {
-			sizeK, offsK := field(rk, "size"), field(rk, "offs")
+			sizeK, offsK := field(rk, roles.size), field(rk, roles.offs)
 			k := symVar(paramKey(fd, 0))
 			var rOffs, rSize, rStorage lin
 			found := false
 			if id, ok := ast.Unparen(ret).(*ast.Ident); ok {
 				rkey, _ := exprKey(info, id)
-				o, ok1 := env.vals[field(rkey, "offs")]
-				s, ok2 := env.vals[field(rkey, "size")]
-				st, ok3 := env.vals[field(rkey, "storage")]
+				o, ok1 := env.vals[field(rkey, roles.offs)]
+				s, ok2 := env.vals[field(rkey, roles.size)]
+				st, ok3 := env.vals[field(rkey, roles.storage)]
 				if ok1 && ok2 && ok3 {
 					rOffs, rSize, rStorage, found = o, s, st, true
 				}
@@ -270,7 +274,7 @@ func ruleR015(c *Ctx) {
 					}
 				}
 				if len(vals) == 3 {
-					rOffs, rSize, rStorage, found = vals["offs"], vals["size"], vals["storage"], true
+					rOffs, rSize, rStorage, found = vals[roles.offs], vals[roles.size], vals[roles.storage], true
 				}
 			}
 			if !found {
@@ -294,7 +298,7 @@ func ruleR015(c *Ctx) {
 				if !rSize.eq(k) {
 					problems = append(problems, "new frame has size "+symStr(rSize)+" instead of n")
 				}
-				if !rStorage.eq(symVar(field(rk, "storage"))) {
+				if !rStorage.eq(symVar(field(rk, roles.storage))) {
 					problems = append(problems, "new frame does not share the storage")
 				}
 				if !ptr {
@@ -316,8 +320,8 @@ func ruleR015(c *Ctx) {
 				ret = r.Results[0]
 			}
 		}, func(rs *ast.RangeStmt) {
-			o, okO := env.vals[field(rk, "offs")]
-			s, okS := env.vals[field(rk, "size")]
+			o, okO := env.vals[field(rk, roles.offs)]
+			s, okS := env.vals[field(rk, roles.size)]
 			if okO {
 				atLoopOffs = &o
 			}
@@ -463,8 +467,8 @@ func ruleR015(c *Ctx) {
 		if name == "NewStack" {
 			wantSize = symVar("len:" + paramKey(fd, 0))
 		}
-		offs, okO := vals["offs"]
-		size, okS := vals["size"]
+		offs, okO := vals[roles.offs]
+		size, okS := vals[roles.size]
 		good := (!okO || offs.eq(linConst(0))) && ((okS && size.eq(wantSize)) || (!okS && name == "NewEmptyStack"))
 		c.Check(good, key, cl.Pos(), "new stack starts at offs 0 with the right size", fmt.Sprintf("new stack starts with offs=%s size=%s", symStr(offs), symStr(size)))
 	}
